@@ -1,5 +1,5 @@
 From Coq Require Import ZArith List.
-From NV Require Import Common.Outcome Common.Conv Lang.Contain.
+From NV Require Import Common.Outcome Common.Conv Lang.Contain Lang.HugeCount.
 Require Extraction.
 Require Import ExtrOcamlBasic.
-Extraction "model.ml" conv_anchor exec_std upd empty_store names.
+Extraction "model.ml" conv_anchor exec_std upd empty_store names vec_alloc clamp_count.
